@@ -238,7 +238,14 @@ fn flatten_case(src: &mut Src, ctx: &mut Ctx) -> Result<(), String> {
     let keys: Vec<raw::LayerKey> = (0..3).map(|i| layers.add(raw::Layer::from_num(i as i16 + 1))).collect();
     let mut ptrs: Vec<raw::utils::Ptr<raw::Cell>> = vec![];
     for (i, c) in cells.iter().enumerate() {
-        let mut layout = raw::Layout { name: format!("c{}", i), ..Default::default() };
+        // cell names need not be unique (a wrapper named like the cell it wraps, layouts left unnamed): cells
+        // are told apart by identity
+        let name = match (c.shapes.len() + 2 * c.insts.len()) % 5 {
+            3 => "shared".to_string(),
+            4 => String::new(),
+            _ => format!("c{}", i),
+        };
+        let mut layout = raw::Layout { name, ..Default::default() };
         for (l, s) in &c.shapes {
             layout.elems.push(raw::Element { net: None, layer: keys[*l], purpose: raw::LayerPurpose::Drawing, inner: s.to_raw() });
         }
